@@ -177,6 +177,14 @@ def gen_respelled(rng, tier):
         except Exception:  # noqa: BLE001
             continue
         ann = R.annotate(u, tree)
+        if kind == "valid":
+            padded = pad_ctrl(tree, ann, rng)
+            if padded is not None:
+                yield {
+                    "ctx": ctx, "tree": padded, "clazz": "Root", "config": rng.choice(CONFIGS), "desc": desc, "_uni": u.modname,
+                    "_kind": kind, "_kinds": ["ctrl_pad"], "_doc": "", "_files": {}, "_handlers": ["events"], "_orig": b64(orig),
+                    "_xinclude": False, "_encoding": "utf-8",
+                }
         for _ in range(3 if kind == "valid" else 1):
             kinds = pick_kinds(rng, tree, ann)
             try:
@@ -197,8 +205,38 @@ def gen_respelled(rng, tier):
             }
 
 
+CTRL_PADS = ["\x1c", "\x1f", "\x1d ", " \x1e", "\x1c\x1f"]
+
+
+def pad_ctrl(tree, ann, rng):
+    """Pad int / bool / QName / token values with the ASCII separators FS..US: `str.isspace()` accepts
+    them (bool, QName, `str.split()` ignore them) but `int()` does not.  They are not XML characters,
+    so these cases go to the real NodeParser as events (no document), never to the oracle."""
+    t = copy.deepcopy(tree)
+    n_padded = [0]
+
+    def pad(v):
+        n_padded[0] += 1
+        return rng.choice(CTRL_PADS) * rng.randint(0, 1) + v + rng.choice(CTRL_PADS)
+
+    def go(n, path):
+        a = ann.get(path, {})
+        for kv in n["a"]:
+            if kv[0] in a.get("padattrs", ()) and kv[1].strip() and rng.random() < 0.7:
+                kv[1] = pad(kv[1])
+        if a.get("padtext") and n["t"] and n["t"].strip() and rng.random() < 0.7:
+            n["t"] = pad(n["t"])
+        for i, c in enumerate(n["c"]):
+            go(c, path + (i,))
+
+    go(t, ())
+    return t if n_padded[0] else None
+
+
 def impl_respelled(a):
     u = uni_of(a)
+    if a["_handlers"] == ["events"]:
+        return B.real_parse_tree(u, a["clazz"], a["tree"], a["config"])
     outs = []
     for h in a["_handlers"]:
         outs.append(real_parse(u, a["clazz"], unb64(a["_doc"]), h, a["config"], {k: unb64(v) for k, v in a["_files"].items()}, a["_xinclude"]))
@@ -216,7 +254,7 @@ def cmp_respelled(mo, io, a):
 def classify_respelled(a, o):
     r = "ok" if "ok" in o else o.get("err", "unsupported")
     ks = a.get("_kinds", [])
-    tag = "xinclude" if "xinclude" in ks else "encoding" if "encoding" in ks else "prefix" if ("prefix" in ks or "default" in ks) else "other"
+    tag = "ctrlpad" if "ctrl_pad" in ks else "xinclude" if "xinclude" in ks else "encoding" if "encoding" in ks else "prefix" if ("prefix" in ks or "default" in ks) else "other"
     return f"{a.get('_kind', '?')}:{tag}:{'+'.join(a.get('_handlers', []))}:{r}"
 
 
@@ -249,6 +287,8 @@ def gen_oracle(rng, tier):
 
 
 def adapt_corr_case(op, a):
+    if a.get("_handlers") == ["events"]:
+        return None  # control-character padding is not a respelling of an XML document
     return {
         "desc": a["desc"], "_uni": a.get("_uni"), "clazz": a["clazz"], "config": a.get("config", {}), "orig": a["_orig"],
         "doc": a["_doc"], "files": a["_files"], "xinclude": a["_xinclude"], "kinds": a["_kinds"], "encoding": a["_encoding"],
